@@ -216,6 +216,10 @@ func TestC05_NumericFields(t *testing.T) {
 		c05.one(t, obs.Hex(append([]byte{7, 1, 2, 3}, v6opt(56, v6opt(3, lb))...)))
 		c05opt.one(t, c05Opt{Code: 24, Payload: lb})
 	}
+	for _, lb := range labelCumulativeBuffers() {
+		c05.one(t, obs.Hex(append([]byte{7, 1, 2, 3}, v6opt(24, lb)...)))
+		c05.one(t, obs.Hex(append([]byte{7, 1, 2, 3}, v6opt(56, v6opt(3, lb))...)))
+	}
 }
 
 func TestC05_DeepRelay(t *testing.T) {
